@@ -279,6 +279,9 @@ func loadFromMemory(interp *Interpreter, offset uint32, vx uint32) (uint64, Exit
 	if !ok {
 		return 0, ExitPageFault | ExitReason(vx)
 	}
+	if page.Access == MemoryInaccessible {
+		return 0, ExitPageFault | ExitReason(vx)
+	}
 
 	// Fast path: load fully within a single page — no alloc, no per-byte loop.
 	if pageIndex+offset <= ZP {
@@ -298,6 +301,9 @@ func loadFromMemory(interp *Interpreter, offset uint32, vx uint32) (uint64, Exit
 	// Cross-page slow path: assemble bytes into a stack buffer.
 	nextPage, ok := mem.Pages[pageNum+1]
 	if !ok {
+		return 0, ExitPageFault | ExitReason(vx)
+	}
+	if nextPage.Access == MemoryInaccessible {
 		return 0, ExitPageFault | ExitReason(vx)
 	}
 
